@@ -147,3 +147,34 @@ def c17_launch(ctx, powder_given, use, bare_unit=None):
     eff = pw if powder_given else air
     want = mv * (1 + mod * (eff - t0) / 15) if use else mv
     ctx.check_eq('launch_velocity', calc.muzzle_velocity, want * 3.2808399, rel=1e-9, abs=1e-5)
+
+
+@harness('C17.reuse', 'C17', functions=FUNCS, must_reach=['check:launch_velocity_after_in_place_changes'], engine_opts={'div_check': False},
+         bounds='one solver object and the SAME Ammo / Atmo / Shot objects: _init_trajectory, then the ammunition is changed in place (sensitivity switched on, calibrated with a symbolic '
+                'second measurement, stated velocity reassigned), then _init_trajectory again: the launch velocity is the one for the current state',
+         stubs=['sqrt/exp/pow summarised inside Atmo'])
+def c17_reuse(ctx):
+    p = pybc()
+    from py_ballisticcalc.trajectory_calc._trajectory_calc import TrajectoryCalc
+    from py_ballisticcalc.interface_config import create_interface_config
+    mv, t0 = _inputs(ctx)
+    v1 = ctx.real('v1', 1e-3, 1e5)
+    t1 = ctx.real('t1', -200, 1000)
+    ctx.assume((v1 > mv) & (t1 > t0) | (v1 < mv) & (t1 < t0))
+    air = ctx.real('air_c', -60, 60)
+    atmo = p.Atmo(p.Distance.Foot(0), p.Pressure.InHg(29.92), p.Temperature.Celsius(air), 0.0)
+    ammo = p.Ammo(p.DragModel(0.3, p.TableG7), p.Velocity.MPS(mv), p.Temperature.Celsius(t0), 0, False)
+    shot = p.Shot(p.Weapon(), ammo, atmo=atmo)
+    calc = TrajectoryCalc(create_interface_config(None))
+    calc._init_trajectory(shot)
+    ctx.check_eq('launch_velocity_after_in_place_changes', calc.muzzle_velocity, mv * 3.2808399, rel=1e-9, abs=1e-5, info={'state': 'initial'})
+    ammo.calc_powder_sens(p.Velocity.MPS(v1), p.Temperature.Celsius(t1))
+    ammo.use_powder_sensitivity = True
+    calc._init_trajectory(shot)
+    want = mv * (1 + ammo.temp_modifier * (air - t0) / 15)
+    ctx.check_eq('launch_velocity_after_in_place_changes', calc.muzzle_velocity, want * 3.2808399, rel=1e-9, abs=1e-5, info={'state': 'calibrated + enabled'})
+    mv2 = ctx.real('mv2', 1e-3, 1e5)
+    ammo.mv = p.Velocity.MPS(mv2)
+    ammo.use_powder_sensitivity = False
+    calc._init_trajectory(shot)
+    ctx.check_eq('launch_velocity_after_in_place_changes', calc.muzzle_velocity, mv2 * 3.2808399, rel=1e-9, abs=1e-5, info={'state': 'mv reassigned, disabled'})
